@@ -56,6 +56,7 @@ type Contract struct {
 	Requires []*Clause
 	ReadonlyIf *Clause // when it holds at entry the function writes no pre-existing frame-checked object; otherwise anything
 	Ghosts   []string  // logical variables: universally quantified integer constants of the contract
+	Always   []*Clause // must hold after every call made by the function (crash-consistency style invariants over ghost state)
 	Assumes  []*Clause // assumed at entry, not checked at call sites (data-structure invariants; listed in evidence)
 	Ensures  []*Clause
 	Modifies []*Clause // each with Expr = location expression
@@ -72,13 +73,17 @@ type Contract struct {
 
 func (c *Contract) flag(s string) bool { return c != nil && c.Flags[s] }
 
-var clauseRe = regexp.MustCompile(`^(ghost|readonly-if|requires|ensures|invariant|decreases|modifies|let|props|loop|replay|pure|trusted|maypanic|nofunctional|readonly|runes|noframe|nocallframe|noerrprop|flags|assume|check)\b`)
+var clauseRe = regexp.MustCompile(`^(ghost|always|readonly-if|requires|ensures|invariant|decreases|modifies|let|props|loop|replay|pure|trusted|maypanic|nofunctional|readonly|runes|noframe|nocallframe|noerrprop|flags|assume|check)\b`)
 var labelRe = regexp.MustCompile(`^@([A-Za-z0-9_.\-]+)\s*`)
 var propsRe = regexp.MustCompile(`^\{([A-Z0-9, ]+)\}\s*`)
 
 var predRe = regexp.MustCompile(`^pred\s+([A-Za-z0-9_]+)\s*\(([^)]*)\)\s*=\s*(.*)$`)
 
 var filePreds = map[string]*Pred{}
+
+// fileGhosts: ghost state declared in contract files (//@ ghostvar name Sort): models of the outside world
+// (was the target file replaced, what was written, ...). Only contracts read or write it.
+var fileGhosts = map[string]string{}
 
 func parseContractFile(path, pkg string) ([]*Contract, error) {
 	f, err := os.Open(path)
@@ -141,6 +146,8 @@ func parseContractFile(path, pkg string) ([]*Contract, error) {
 			cur.Assumes = append(cur.Assumes, cl)
 		case "readonly-if":
 			cur.ReadonlyIf = cl
+		case "always":
+			cur.Always = append(cur.Always, cl)
 		case "ensures":
 			cur.Ensures = append(cur.Ensures, cl)
 		case "invariant":
@@ -169,6 +176,13 @@ func parseContractFile(path, pkg string) ([]*Contract, error) {
 		}
 		tb := strings.TrimSpace(body)
 		if tb == "" {
+			continue
+		}
+		if strings.HasPrefix(tb, "ghostvar ") {
+			f := strings.Fields(tb)
+			if len(f) == 3 {
+				fileGhosts[f[1]] = f[2]
+			}
 			continue
 		}
 		if strings.HasPrefix(tb, "pred ") {
@@ -264,7 +278,7 @@ func parseContractFile(path, pkg string) ([]*Contract, error) {
 			}
 			pendingLoop = curLoop
 			pending = &Clause{Kind: m, Text: rest, Line: ln, File: path}
-		case "requires", "ensures", "modifies", "assume", "check", "readonly-if":
+		case "requires", "ensures", "modifies", "assume", "check", "readonly-if", "always":
 			pending = &Clause{Kind: m, Text: rest, Line: ln, File: path}
 		}
 	}
